@@ -40,7 +40,8 @@ def _strip_docstrings(tree):
 
 
 class Repo:
-    def __init__(self, root=None, transforms=None, stubs=None):
+    def __init__(self, root=None, transforms=None, stubs=None, loop_contracts=None):
+        self.loop_contracts = loop_contracts or {}    # function qualname -> iterable of loop ordinals under contract
         self.root = root or REPO_ROOT
         self.cache = {}
         self.trees = {}
@@ -114,6 +115,19 @@ class Repo:
         mod = ModuleNS(ns)
         self.cache[modname] = mod
         tree = ast.parse(self.source(modname))
+        from . import loops as _loops, zarr as _zarr
+        tree = _loops.LenRewriter().visit(tree)
+        for (fq, ks) in self.loop_contracts.items():
+            fmod, fname = fq.rsplit(".", 1)
+            if fmod == modname:
+                for st in tree.body:
+                    if isinstance(st, ast.FunctionDef) and st.name == fname:
+                        _loops.instrument_function(st, fq, set(ks))
+        ast.fix_missing_locations(tree)
+        ns["__d3vc_len__"] = _zarr.d3vc_len
+        ns["__d3vc_loop__"] = _loops.loop_hook
+        ns["min"] = _zarr.model_min
+        ns["max"] = _zarr.model_max
         if modname in self.transforms:
             tree = self.transforms[modname](tree)
             ast.fix_missing_locations(tree)
